@@ -160,7 +160,24 @@ def check(c):
     c.floor('C33.record-success', 'succeeded, results = json.loads(ctx.out)',
             len(dec), 1)
 
-    # housekeep
+    # housekeep is given the whole pool: "no task still needs it" is judged
+    # over every pooled task (runahead-limited ones included), not a subset
+    for n in c.calls(None, 'housekeep'):
+        f = c.owner(n)
+        if f is None or f.fq == f'{M}:XtriggerManager.housekeep':
+            continue
+        from rules._shared import resolved
+        a = resolved(c, f, n.args[0], n) if n.args else None
+        ok = a is not None and norm(a) in ('self.pool.get_tasks()',
+                                           'schd.pool.get_tasks()')
+        c.ob('C33.housekeep', c.key(n, f) + ' over all pooled tasks', ok,
+             c.where(n, f), '' if ok else f'housekeep({norm(a) if a is not None else ""}) '
+             '— a result still needed by a task outside this list is '
+             'forgotten and the function is called again')
+    c.floor('C33.housekeep', 'housekeep call sites', len([
+        n for n in c.calls(None, 'housekeep')
+        if c.owner(n) is not None and c.owner(n).fq !=
+        f'{M}:XtriggerManager.housekeep']), 1)
     hk = c.func(M, 'XtriggerManager.housekeep')
     dels = [s for s in c.stores(hk, 'sat_xtrig') if s.kind == 'del']
     c.floor('C33.housekeep', 'del self.sat_xtrig[sig]', len(dels), 1)
@@ -252,6 +269,10 @@ def check(c):
 
 
 VARIANTS = [
+    ('housekeep-subset', 'cylc/flow/scheduler.py',
+     '            self.xtrigger_mgr.housekeep(self.pool.get_tasks())',
+     '            self.xtrigger_mgr.housekeep([t for t in self.pool.get_tasks() if not t.state.is_runahead])',
+     'C33.housekeep'),
     ('no-active-check', M.join(['cylc/flow/', '.py']),
      '''            if sig in self.active:
                 # Already waiting on this result.
